@@ -1,6 +1,6 @@
 """Tie of the git layer of the system model (lean/BertE/Model/Git.lean, Flow.lean: `Loc.merge`, `applyOp`) to
 Bert-E's own git layer (bert_e/lib/git.py `Repository`/`Branch`, bert_e/workflow/git_utils.py `robust_merge`,
-`push`) running REAL git against a scratch bare repository.
+`consecutive_merge` (= `Loc.merge2`, including the state a conflict leaves behind), `push`) running REAL git against a scratch bare repository.
 
 The rules the theorems of C01, C02, C03 and C08 rest on — the ancestry consequences of a merge (already up to
 date / fast-forward to the one head that contains all the others / a new commit on top of all heads, the
@@ -166,7 +166,7 @@ def gen_script(rng, length):
         elif r < 0.37:
             steps.append(('lbranch', rng.choice(NAMES), 'pick'))
         elif r < 0.62:
-            steps.append(('m', 'pick', rng.choice([1, 1, 2, 2, 2])))
+            steps.append(('m', 'pick', rng.choice([1, 1, 2, 2, 2]), rng.random() < 0.25))   # last: consecutive_merge
         elif r < 0.74:
             steps.append(('push', rng.randint(1, 3), 'rej'))
         elif r < 0.84:
@@ -248,6 +248,41 @@ def run_script(args):
                 srcs = rng.sample(others, min(st[2], len(others)))
                 d = libgit.Branch(w.repo, dst)
                 before = lr[dst]
+                if len(srcs) == 2 and len(st) > 3 and st[3]:
+                    # `consecutive_merge` (option no_octopus) against `Loc.merge2`; every `git merge` it runs is
+                    # recorded: was the content merge asked (a merge commit appeared, or a conflict), what it answered
+                    bits = []
+                    orig_merge = libgit.Branch.merge
+
+                    def traced(self, *src, **kw):
+                        b4 = w.local_refs().get(self.name)
+                        tips = [w.local_refs().get(x.name) for x in src]
+                        try:
+                            r = orig_merge(self, *src, **kw)
+                        except libgit.MergeFailedException:
+                            bits.append('0')
+                            raise
+                        if w.local_refs().get(self.name) not in [b4] + tips:
+                            bits.append('1')
+                        return r
+                    libgit.Branch.merge = traced
+                    try:
+                        git_utils.consecutive_merge(d, libgit.Branch(w.repo, srcs[0]), libgit.Branch(w.repo, srcs[1]))
+                        ok = True
+                    except libgit.MergeFailedException:
+                        ok = False
+                        w.repo.cmd('git reset -q --hard')
+                    finally:
+                        libgit.Branch.merge = orig_merge
+                    kinds.append('consecutive:%s:%s' % ('ok' if ok else 'conflict', ''.join(bits) or '-'))
+                    outcome = 'm2%s:%d' % ('ok' if ok else 'conflict', len(bits))
+                    items.append('m2 %s %s %s %s' % (ref_code(dst), ref_code(srcs[0]), ref_code(srcs[1]),
+                                                     ''.join(bits) or '-'))
+                    rr, lr = w.remote_refs(), w.local_refs()
+                    lr = {n: s for n, s in lr.items() if not n.startswith('tmp/')}
+                    tips = sorted(set(rr.values()) | set(lr.values()))
+                    obs.append({'outcome': outcome, 'remote': rr, 'local': lr, 'anc': w.ancestry(tips)})
+                    continue
                 try:
                     if len(srcs) == 1:
                         d.merge(libgit.Branch(w.repo, srcs[0]))
